@@ -216,7 +216,8 @@ func vCanonStore(st *PersistentHybridIndex, fs *vos.MemFS) string {
 }
 
 // vStoreSearchIDs runs one of the fixed probe queries and returns the id set.
-// q: 0 vector-only k=10, 1 text "alpha", 2 metadata s=x, 3 vector + filter s=x, 4 vector-only second query
+// q: 0 vector-only k=10, 1 text "alpha", 2 metadata s=x, 3 vector + filter s=x, 4 vector-only second query,
+// 5 vector + text + threshold, 6 vector + threshold
 func vStoreSearch(st *PersistentHybridIndex, q int) (map[uint32]float64, error) {
 	s := st.NewSearch().WithK(10).WithNProbes(64).WithEfSearch(64) // approximate templates probed exhaustively
 	switch q {
@@ -230,6 +231,12 @@ func vStoreSearch(st *PersistentHybridIndex, q int) (map[uint32]float64, error) 
 		s = s.WithVector([]float32{0, 1}).WithMetadata(Eq("s", "x"))
 	case 4:
 		s = s.WithVector([]float32{0, 2})
+	case 5:
+		// vector + text + distance threshold: the threshold limits the VECTOR candidates
+		// (distance <= 0.05); a text match stays a match
+		s = s.WithVector([]float32{1, 0}).WithText("alpha").WithThreshold(0.05)
+	case 6:
+		s = s.WithVector([]float32{1, 0}).WithThreshold(0.05)
 	}
 	res, err := s.Execute()
 	if err != nil {
@@ -253,15 +260,19 @@ func vStoreMatches(d vDoc, q int, tmpl string) bool {
 		return tmpl == "vtm" && d.Meta["s"] == "x"
 	case 3:
 		return tmpl == "vtm" && len(d.Vec) > 0 && d.Meta["s"] == "x"
+	case 5:
+		return tmpl == "vtm" && (vStoreMatches(d, 6, tmpl) || vStoreMatches(d, 1, tmpl))
+	case 6:
+		return len(d.Vec) == 2 && d.Vec[0] == 1 && d.Vec[1] == 0
 	}
 	return false
 }
 
 func vStoreQueries(tmpl string) []int {
 	if tmpl == "vtm" {
-		return []int{0, 1, 2, 3}
+		return []int{0, 1, 2, 3, 5, 6}
 	}
-	return []int{0, 4}
+	return []int{0, 4, 6}
 }
 
 // number of segment decodes so far = opens of hybrid_ files (getIndex cache misses)
